@@ -109,6 +109,9 @@ var pinned = []pin{
 	{name: "funcname-assign-stack-leak",
 		a:      `log((function f() { return [(f = 0, typeof f)].length; })(), (function g() { return {p: (g = 0, 7)}.p; })());`,
 		expect: "L d:3ff0000000000000 d:401c000000000000\nRET u"},
+	{name: "computed-key-over-accessor",
+		a:      `var k = "p"; var o = {set p(g) { log("set", g); }, get q() { return 1; }, [k]: 2, [k === "p" ? "q" : "z"]: 3}; log(o.p, o.q);`,
+		expect: "L d:4000000000000000 d:4008000000000000\nRET u"},
 	{name: "unresolvable-callee-order",
 		a:      `function g() { log("g"); } try { nof(g()); } catch (e) { log(e); }`,
 		expect: "L E:ReferenceError\nRET u"},
